@@ -256,13 +256,13 @@ func (x *Exec) loopLocs(st *State, l *Loop) []loopLoc {
 	for _, e := range x.ct.LoopMod[l.Ordinal] {
 		env := &Env{x: x, st: st, old: x.entry, fn: x.fn, binds: map[string]specBinding{}, cells: true, mode: "inv", pkg: fnPkg(x.fn)}
 		switch {
-		case e.Kind == "call" && len(e.Args) == 1 && (e.Name == "written" || e.Name == "sent" || e.Name == "recvd" || e.Name == "closed" || e.Name == "content"):
+		case e.Kind == "call" && len(e.Args) == 1 && (e.Name == "written" || e.Name == "sent" || e.Name == "recvd" || e.Name == "closed" || e.Name == "content" || e.Name == "cancelled"):
 			at := env.eval(e.Args[0])
 			if env.err != nil {
 				x.specError(e, env.err)
 				continue
 			}
-			key := map[string]string{"written": ghBuf, "sent": ghSent, "recvd": ghRecvd, "closed": ghClosed, "content": ghRd}[e.Name]
+			key := map[string]string{"written": ghBuf, "sent": ghSent, "recvd": ghRecvd, "closed": ghClosed, "content": ghRd, "cancelled": ghCancelled}[e.Name]
 			loc := at.T
 			if e.Name == "written" {
 				loc = x.bufKeyT(st, loc, at.Ty)
